@@ -58,15 +58,20 @@ def main():
     if r.returncode:
         print("APPLY-FAILED", r.stdout[-400:]); sys.exit(2)
     rc = 0
-    for p in props:
-        r = sh("%s/check %s --repo %s --tag %s" % (V, p, W, TAG))
-        viol = [l.strip() for l in r.stdout.splitlines() if l.strip().startswith(("rule violated:", "UNDECIDED", "ANCHOR-MISSING"))]
-        if "INTERNAL" in r.stdout:
-            print(p, "INTERNAL", r.stdout[-600:])
+    r = sh("%s/check %s --repo %s --tag %s" % (V, ",".join(props), W, TAG))
+    chunks = r.stdout.split("=== ") if len(props) > 1 else ["%s\n%s" % (props[0], r.stdout)]
+    for ch in chunks:
+        if not ch.strip():
+            continue
+        p = ch.split("\n", 1)[0].strip()
+        body = ch.split("\n", 1)[1] if "\n" in ch else ""
+        viol = [l.strip() for l in body.splitlines() if l.strip().startswith(("rule violated:", "UNDECIDED", "ANCHOR-MISSING"))]
+        if "INTERNAL" in body:
+            print(p, "INTERNAL", body[-600:])
         elif viol:
             print(p, "FIRED", len(viol)); [print("    ", v[:230]) for v in viol[:6]]
         else:
-            print(p, "SILENT", r.stdout.strip().splitlines()[-1][:120])
+            print(p, "SILENT", (body.strip().splitlines() or [""])[-1][:120])
     sh("git -C %s revert --abort; git -C %s checkout -- . " % (W, W))
 
 main()
